@@ -151,6 +151,10 @@ func runHist(res *vh.Result, prop string) {
 			return
 		}
 		h := vh.Generate(rng, p)
+		if (prop == "C05" || prop == "C04") && i%2 == 1 {
+			vh.WidenIDs(h)
+			res.Count("histories_with_wide_rule_ids", 1)
+		}
 		rn := rnModel
 		if prop != "C08" && i%6 == 5 && !(prop == "C11" && i%4 == 3) {
 			rn = rnReal
@@ -195,6 +199,18 @@ func runHist(res *vh.Result, prop string) {
 			}
 			if (prop == "C04" || prop == "C05") && len(fcalls) > 0 && k > 0 {
 				plan[rng.Intn(len(fcalls))] = []string{"na", "ap"}[rng.Intn(2)]
+			}
+			if (prop == "C11" || prop == "C12") && k > 0 {
+				// a usage query (Query URR, or the final query when a URR loses its last PDR) that fails or returns nothing
+				var qs []int
+				for _, c := range fcalls {
+					if c.Op == "Query" {
+						qs = append(qs, c.FIdx)
+					}
+				}
+				if len(qs) > 0 {
+					plan[qs[rng.Intn(len(qs))]] = "na"
+				}
 			}
 			if len(plan) == 0 {
 				break
@@ -324,6 +340,10 @@ func runC01(res *vh.Result) {
 		if i%5 == 3 {
 			// URR-centred histories for the report-less data plane: create / remove / re-create / query chains on few ids
 			h = vh.Generate(rng, vh.GenProfile{MinOps: 12, MaxOps: 22, MaxNodes: 1, MaxSess: 2, Negative: 0, Reports: 2, RuleChurn: 14, Reassoc: 1, URRHeavy: true})
+		}
+		if i%2 == 1 {
+			vh.WidenIDs(h) // rule ids over the whole range of each id (high bit set, maximum, ...)
+			res.Count("histories_with_wide_rule_ids", 1)
 		}
 		rn := rnModel
 		if i%5 == 4 {
